@@ -55,8 +55,8 @@ ScopeOf(r) == IF r = "schema_hooks" THEN "schema" ELSE r
 FilteredForms == IF Narrow THEN {"filt_bare"} ELSE {"filt_bare", "filt_named", "named_filt"}
 PlainForms == IF Narrow THEN {"bare"} ELSE {"bare", "named"}
 UsedChains == IF Narrow THEN (IF MaxLen > 3 THEN {"C1", "C2"} ELSE {"C2"})
-              ELSE IF ~Rich /\ MaxReg <= 2 THEN {"C2", "C3"}      \* quick pairs: exclude-only (by tag) and include + exclude
-              ELSE ChainIds
+              ELSE IF Rich THEN {"C1", "C3", "C4"}
+              ELSE {"C2", "C3"}                 \* exclude-only (by tag) and include + exclude
 
 (* plans: hook name of the k-th registration, and the order in which the schemas are used *)
 Plan(names, order) == [names |-> names, order |-> order]
@@ -68,11 +68,10 @@ PlansTriples == { Plan(<<"map_query", "map_query", "filter_query">>, "BA"),
                   Plan(<<"filter_case", "before_generate_case", "flatmap_query">>, "AB") }
 PlansRich == { Plan(<<"map_headers", "filter_cookies">>, "AB"),
                Plan(<<"before_generate_path_parameters", "flatmap_headers">>, "BA"),
-               Plan(<<"map_body", "before_generate_query">>, "A"),
-               Plan(<<"flatmap_case", "filter_body">>, "BA") }
+               Plan(<<"map_body", "flatmap_case">>, "A") }
 PlansGen == { Plan(<<"map_query", "filter_query">>, "AB"),
               Plan(<<"before_generate_query", "flatmap_headers">>, "BA") }
-              \cup (IF MaxLen > 3 THEN { Plan(<<"map_body", "map_case">>, "AB") } ELSE {})
+
 Plans == IF MaxGen > 0 THEN PlansGen ELSE IF Rich THEN PlansRich ELSE IF MaxReg <= 2 THEN PlansPairs ELSE PlansTriples
 
 ---------------------------------------------------------------------------
